@@ -320,6 +320,9 @@ pub fn oracle_c07(line: &str) -> String {
         if !instances_point_into_library(&back) { break_cycles(&back); return "fail an instance of the re-imported library refers to a cell that is not in the library (a detached copy)".into(); }
         let (a, b) = (norm_raw(&lib), norm_raw(&back));
         break_cycles(&back);
+        if a == b {
+            if let Some(m) = c07_history(&p[1], &g, &a) { return m; }
+        }
         if a == b { "pass".into() } else {
             let k = a.iter().zip(b.iter()).position(|(x, y)| x != y).unwrap_or(0);
             format!("fail raw→GDS→raw changed the library: {} vs {}", a.get(k).cloned().unwrap_or_default().chars().take(200).collect::<String>(), b.get(k).cloned().unwrap_or_default().chars().take(200).collect::<String>())
@@ -330,6 +333,56 @@ pub fn oracle_c07(line: &str) -> String {
         // errors are acceptable only outside the GDSII-representable subset (missing label purpose, no label point)
         return if exportable(&p[1]) { "fail export of a representable library failed".into() } else { "pass".into() };
     }
+    out
+}
+/// A HISTORY on one layer table: the exported GDSII is imported into a FRESH table (every datatype / text type comes in
+/// as an anonymous `Other(n)` purpose), the user then repairs the table the way the export error message asks for —
+/// registers the label number as `Label` and one shape number as `Drawing`, re-using numbers the import already took —
+/// and exports the imported library again.  That export must succeed and import back to the original library.
+fn c07_history(glib: &Sexp, g: &GdsLibrary, want: &Vec<String>) -> Option<String> {
+    let v = glib.list()?;
+    // (layer number, label purpose number); tables with two objects per number are left to the plain round trip
+    let mut rows: Vec<(i16, Option<i16>)> = vec![];
+    for r in &v[3].list()?[1..] {
+        let r = r.list()?;
+        if r.get(2).and_then(|x| x.int()).is_some() { return None; }
+        rows.push((r[0].int()? as i16, r[1].int().map(|x| x as i16)));
+    }
+    if !exportable(glib) { return None; }
+    let back2 = match std::panic::catch_unwind(|| raw::Library::from_gds(g, None)) { Ok(Ok(b)) => b, _ => return Some("fail import of the exported library into a fresh layer table failed".into()) };
+    let out = (|| -> Option<String> {
+        {
+            let mut layers = back2.layers.write().unwrap();
+            let keys: Vec<raw::LayerKey> = layers.slots.keys().collect();
+            for k in keys {
+                let layer = layers.slots.get_mut(k)?;
+                let ln = layer.layernum;
+                if let Some((_, Some(lp))) = rows.iter().find(|r| r.0 == ln) {
+                    if layer.add_purpose(*lp, raw::LayerPurpose::Label).is_err() { return Some("fail registering the label purpose on an imported layer failed".into()); }
+                }
+                // one number the import took as Other(n), now named Drawing (never the label number)
+                let lp = rows.iter().find(|r| r.0 == ln).and_then(|r| r.1);
+                let taken: Option<i16> = (0..4i16).find(|n| Some(*n) != lp && matches!(layer.purpose(*n), Some(raw::LayerPurpose::Other(_))));
+                if let Some(n) = taken {
+                    if layer.num(&raw::LayerPurpose::Drawing).is_none() && layer.add_purpose(n, raw::LayerPurpose::Drawing).is_err() { return Some("fail registering a drawing purpose on an imported layer failed".into()); }
+                }
+            }
+        }
+        let g2 = match std::panic::catch_unwind(std::panic::AssertUnwindSafe(|| back2.to_gds())) {
+            Err(_) => return Some("fail export of an imported library panicked after its layer table was completed".into()),
+            Ok(Err(e)) => return Some(format!("fail an imported library cannot be exported again after its layer table was completed: {}", format!("{:?}", e).chars().take(100).collect::<String>())),
+            Ok(Ok(g2)) => g2,
+        };
+        let back3 = match std::panic::catch_unwind(std::panic::AssertUnwindSafe(|| raw::Library::from_gds(&g2, Some(back2.layers.clone())))) { Ok(Ok(b)) => b, _ => return Some("fail second import (after the table repair) failed".into()) };
+        let got = norm_raw(&back3);
+        break_cycles(&back3);
+        if &got != want {
+            let k = want.iter().zip(got.iter()).position(|(x, y)| x != y).unwrap_or(0);
+            return Some(format!("fail import – repair the layer table – export – import changed the library: {} vs {}", want.get(k).cloned().unwrap_or_default().chars().take(160).collect::<String>(), got.get(k).cloned().unwrap_or_default().chars().take(160).collect::<String>()));
+        }
+        None
+    })();
+    break_cycles(&back2);
     out
 }
 fn exportable(s: &Sexp) -> bool {
@@ -464,7 +517,46 @@ fn region_key(s: &str) -> String {
 pub fn oracle_c06(line: &str) -> String {
     let p = match Sexp::parse_all(line) { Some(p) if p.len() == 2 && p[0].atom() == Some("gdsraw.import") => p, _ => return "na".into() };
     let g = match p_lib(&p[1]) { Some(x) => x, None => return "na".into() };
-    let res = match std::panic::catch_unwind(std::panic::AssertUnwindSafe(|| raw::Library::from_gds(&g, None))) { Err(_) => return "fail import panicked".into(), Ok(r) => r };
+    let first = c06_judge(&g, None);
+    if first != "pass" { return first; }
+    // the same stream imported into a layer table the CALLER supplies, with a history: (A) two layer objects already share
+    // each number (as met1 / via share 68 in the crate's sample technology), one of them knowing one of the datatypes;
+    // (B) a first import into a fresh table, then a new layer re-using a number in use, then the import again
+    let mut used: Vec<(i16, i16)> = vec![];
+    for st in &g.structs { for e in &st.elems { match e {
+        GdsElement::GdsBoundary(x) => used.push((x.layer, x.datatype)), GdsElement::GdsPath(x) => used.push((x.layer, x.datatype)),
+        GdsElement::GdsBox(x) => used.push((x.layer, x.boxtype)), _ => {} } } }
+    used.sort(); used.dedup();
+    if used.is_empty() { return first; }
+    let variant = line.len() % 3;
+    if variant == 1 {
+        let mut layers = raw::Layers::default();
+        let mut nums: Vec<i16> = used.iter().map(|u| u.0).collect(); nums.dedup();
+        for n in nums {
+            let dts: Vec<i16> = used.iter().filter(|u| u.0 == n).map(|u| u.1).collect();
+            let mut a = raw::Layer::new(n, format!("a{}", n));
+            let _ = a.add_purpose(dts[0], raw::LayerPurpose::Drawing);
+            layers.add(a);
+            let mut b = raw::Layer::new(n, format!("b{}", n));
+            let _ = b.add_purpose(*dts.last().unwrap() + 1, raw::LayerPurpose::Drawing);
+            layers.add(b);
+        }
+        let r = c06_judge(&g, Some(Ptr::new(layers)));
+        if r != "pass" && r != "na" { return format!("{} [import into a caller-supplied table with two layer objects per number]", r); }
+    } else if variant == 2 {
+        if let Ok(Ok(lib1)) = std::panic::catch_unwind(std::panic::AssertUnwindSafe(|| raw::Library::from_gds(&g, None))) {
+            let tbl = lib1.layers.clone();
+            break_cycles(&lib1);
+            { let mut l = tbl.write().unwrap(); let n = used[used.len() / 2].0; let mut extra = raw::Layer::new(n, "extra"); let _ = extra.add_purpose(77, raw::LayerPurpose::Drawing); l.add(extra); }
+            let r = c06_judge(&g, Some(tbl));
+            if r != "pass" && r != "na" { return format!("{} [second import into the first import's table after a layer re-using a number was added]", r); }
+        }
+    }
+    first
+}
+fn c06_judge(g: &GdsLibrary, tbl: Option<Ptr<raw::Layers>>) -> String {
+    let g = g.clone();
+    let res = match std::panic::catch_unwind(std::panic::AssertUnwindSafe(|| raw::Library::from_gds(&g, tbl))) { Err(_) => return "fail import panicked".into(), Ok(r) => r };
     // reference flattening of every struct
     let mut refs: Vec<(String, Result<Vec<String>, String>)> = vec![];
     for s in &g.structs {
